@@ -6,7 +6,11 @@
 //     schedulers `sched{c}` (one FIFO per context, run by the script event R<c>); leaves and the root
 //     receiver log the context they are started / completed on and the receiver's get_scheduler;
 //   * more algorithms: let_value_with_stop_source (lvss / leafr), stop_if_requested, just_from, defer,
-//     repeat_effect_until (predicate driven by a bit list), retry_when (function granting n retries), into_variant.
+//     repeat_effect_until (predicate driven by a bit list), retry_when (function granting n retries), into_variant;
+//   * value-copy fault points: every value travelling through a generated expression is a tracked `payload`
+//     (live-object count, C02) whose copy / move constructor throws err{77} when the object is armed; a script
+//     completion `L<id>:t<v>` makes the leaf send an armed payload.  All helpers below take payloads by
+//     reference (no copy of their own) and build fresh, unarmed payloads for their results.
 #pragma once
 #include "k2.hpp"
 #include <unifex/scheduler_concepts.hpp>
@@ -31,6 +35,65 @@ namespace k2v2 {
 using k2::log; using k2::err; using k2::code_of; using k2::CTL; using k2::leaf_ctl;
 
 inline int cur_ctx = 0;
+
+// ---- the tracked value type -----------------------------------------------------------------------------
+inline int live_payloads = 0;
+constexpr int THROW_CODE = 77;
+struct payload {
+  int v; bool armed;
+  explicit payload(int x, bool a = false) noexcept : v(x), armed(a) { ++live_payloads; }
+  payload(const payload& o) : v(o.v), armed(false) { if (o.armed) throw err{THROW_CODE}; ++live_payloads; }
+  payload(payload&& o) : v(o.v), armed(false) { if (o.armed) throw err{THROW_CODE}; ++live_payloads; }
+  payload& operator=(const payload&) = delete;
+  ~payload() { --live_payloads; }
+};
+inline auto just(int v) { return unifex::just(payload(v)); }
+// the callable table over payloads: the argument is taken by reference, the result is a fresh object
+struct pfn {
+  k2::fnobj f;
+  payload operator()(const payload& p) const { return payload(f(p.v)); }
+};
+template <typename S> auto thenf(S&& s, k2::fnobj f) { return unifex::then((S&&)s, pfn{f}); }
+template <typename S> auto voided(S&& s) { return unifex::then((S&&)s, [](const payload&) noexcept {}); }
+template <typename S> auto uerr(S&& s, k2::fnobj f) {
+  return unifex::upon_error((S&&)s, [f](std::exception_ptr e) { return payload(f(code_of(e))); });
+}
+template <typename S> auto udone(S&& s, k2::fnobj f) {
+  return unifex::upon_done((S&&)s, [f]() { return payload(f(0)); });
+}
+struct mat_fold {
+  payload operator()(unifex::tag_t<unifex::set_value>, const payload& p) const noexcept { return payload(3 * p.v); }
+  payload operator()(unifex::tag_t<unifex::set_error>, std::exception_ptr e) const noexcept { return payload(3 * code_of(e) + 1); }
+  payload operator()(unifex::tag_t<unifex::set_done>) const noexcept { return payload(2); }
+};
+template <typename S> auto mat(S&& s) { return unifex::then(unifex::materialize((S&&)s), mat_fold{}); }
+template <typename S> auto dopt(S&& s) {
+  return unifex::then(unifex::done_as_optional((S&&)s),
+                      [](const std::optional<payload>& o) noexcept { return o ? payload(o->v) : payload(-1); });
+}
+// inline completing sender with the uniform signature (value payload / error exception_ptr / done)
+template <typename Receiver>
+struct inl_op {
+  char kind; int val; Receiver r;
+  void start() noexcept {
+    if (kind == 'e') unifex::set_error(std::move(r), std::make_exception_ptr(err{val}));
+    else unifex::set_done(std::move(r));
+  }
+};
+struct inl {
+  template <template <typename...> class Variant, template <typename...> class Tuple>
+  using value_types = Variant<Tuple<payload>>;
+  template <template <typename...> class Variant>
+  using error_types = Variant<std::exception_ptr>;
+  static constexpr bool sends_done = true;
+  static constexpr unifex::blocking_kind blocking = unifex::blocking_kind::always_inline;
+  static constexpr bool is_always_scheduler_affine = true;
+  char kind; int val;
+  template <typename R>
+  friend inl_op<unifex::remove_cvref_t<R>> tag_invoke(unifex::tag_t<unifex::connect>, const inl& s, R&& r) {
+    return inl_op<unifex::remove_cvref_t<R>>{s.kind, s.val, (R&&)r};
+  }
+};
 
 // ---- harness scheduler: one FIFO per context ---------------------------------------------------------
 struct task_base {
@@ -106,7 +169,7 @@ inline bool run_one(int c) {
 }
 
 // schedule() as an expression of the uniform signature (value int)
-inline auto sched_leaf(int c) { return unifex::then(unifex::schedule(sched{c}), []() noexcept { return 0; }); }
+inline auto sched_leaf(int c) { return unifex::then(unifex::schedule(sched{c}), []() noexcept { return payload(0); }); }
 
 // with_scheduler_affinity(s, sched): the library returns s itself when s is statically scheduler-affine and
 // finally(s, unstoppable(schedule(sched))) otherwise; the model term (Calc2.wsa_via) is the second branch, so
@@ -190,7 +253,13 @@ struct leaf_op {
     if (self->cb_live) { self->cb_live = false; self->stopcb.destruct(); }
     self->done_ = true;
     log("fin " + std::to_string(self->id));
-    if (kind == 'v') unifex::set_value(std::move(self->r), (int)v);
+    if (kind == 'v' || kind == 't') {
+      // the receiver contract: if set_value exits with an exception the sender completes with set_error
+      // (as just.hpp does); kind 't' = the value's copy / move throws when somebody stores it
+      auto& r = self->r;     // the operation state may be gone when set_value returns normally, not when it throws
+      try { unifex::set_value(std::move(r), payload(v, kind == 't')); }
+      catch (...) { unifex::set_error(std::move(r), std::current_exception()); }
+    }
     else if (kind == 'e') unifex::set_error(std::move(self->r), std::make_exception_ptr(err{v}));
     else unifex::set_done(std::move(self->r));
   }
@@ -198,7 +267,7 @@ struct leaf_op {
 
 struct leaf {
   template <template <typename...> class Variant, template <typename...> class Tuple>
-  using value_types = Variant<Tuple<int>>;
+  using value_types = Variant<Tuple<payload>>;
   template <template <typename...> class Variant>
   using error_types = Variant<std::exception_ptr>;
   static constexpr bool sends_done = true;
@@ -216,7 +285,7 @@ struct leaf {
 inline int combine(int x, int y) { long long m = 1000003; return (int)((((long long)x * 31 + y) % m + m) % m); }
 template <typename A, typename B> auto wall(A&& a, B&& b) {
   return unifex::then(unifex::when_all((A&&)a, (B&&)b), [](auto&& va, auto&& vb) noexcept {
-    return combine(std::get<0>(std::get<0>(va)), std::get<0>(std::get<0>(vb)));
+    return payload(combine(std::get<0>(std::get<0>(va)).v, std::get<0>(std::get<0>(vb)).v));
   });
 }
 
@@ -231,16 +300,16 @@ template <typename F> auto lvss(bool now, F f) {
 }
 // a leaf whose value is passed through a callable that first requests stop on the given source
 template <typename Src> auto leafr(int id, Src* src) {
-  return unifex::then(leaf{id, false}, [id, src](int v) noexcept {
+  return unifex::then(leaf{id, false}, [id, src](const payload& p) noexcept {
     log("reqstop " + std::to_string(id));
     src->request_stop();
-    return v;
+    return payload(p.v);
   });
 }
 #ifdef K2V2_HAVE_WSA
-inline auto stopif() { return unifex::then(unifex::stop_if_requested(), []() noexcept { return 0; }); }
+inline auto stopif() { return unifex::then(unifex::stop_if_requested(), []() noexcept { return payload(0); }); }
 #endif
-inline auto jfrom(k2::fnobj f) { return unifex::just_from([f] { return f(0); }); }
+inline auto jfrom(k2::fnobj f) { return unifex::just_from([f] { return payload(f(0)); }); }
 // repeat_effect_until's predicate: the k-th call returns bit k of `bits` (k < n), true afterwards
 struct predlist {
   unsigned bits; int n; int k = 0;
@@ -252,7 +321,7 @@ struct predlist {
   }
 };
 template <typename S> auto repeat(S&& s, predlist p) {
-  return unifex::then(unifex::repeat_effect_until(k2::voided((S&&)s), p), []() noexcept { return 0; });
+  return unifex::then(unifex::repeat_effect_until(voided((S&&)s), p), []() noexcept { return payload(0); });
 }
 // retry_when's function grants n retries: its sender is sequence(gate, trigger); the gate passes (value) for the
 // first n errors and fails with the error afterwards
@@ -283,12 +352,12 @@ template <typename A, typename G> auto retry(A&& a, int n, G g) {
   return unifex::retry_when((A&&)a, [n, cnt = 0, g](std::exception_ptr ep) mutable {
     int e = code_of(ep);
     bool ok = cnt++ < n;
-    return unifex::sequence(gate{ok, e}, k2::voided(g(e)));
+    return unifex::sequence(gate{ok, e}, voided(g(e)));
   });
 }
 template <typename A, typename B> auto wany(A&& a, B&& b) { return unifex::when_any((A&&)a, (B&&)b); }
 template <typename S> auto intov(S&& s) {
-  return unifex::then(unifex::into_variant((S&&)s), [](auto&& v) noexcept { return std::get<0>(std::get<0>(v)); });
+  return unifex::then(unifex::into_variant((S&&)s), [](auto&& v) noexcept { return payload(std::get<0>(std::get<0>(v)).v); });
 }
 
 // ---- root receiver: the root's scheduler is that of context 0 ----------------------------------------
@@ -296,7 +365,7 @@ using k2::counting_token;
 struct root_receiver {
   counting_token tok;
   static std::string tail() { return " regs=" + std::to_string(k2::live_regs) + " ctx=" + std::to_string(cur_ctx); }
-  void set_value(int v) && noexcept { ++k2::roots; log("root value " + std::to_string(v) + tail()); }
+  void set_value(const payload& p) && noexcept { ++k2::roots; log("root value " + std::to_string(p.v) + tail()); }
   void set_error(std::exception_ptr e) && noexcept { ++k2::roots; log("root error " + std::to_string(code_of(e)) + tail()); }
   void set_done() && noexcept { ++k2::roots; log("root done" + tail()); }
   friend counting_token tag_invoke(unifex::tag_t<unifex::get_stop_token>, const root_receiver& r) noexcept { return r.tok; }
@@ -328,7 +397,7 @@ std::string run_case(MakeSender mk, bool prestop, const std::vector<script_ev>& 
   k2::LOG.clear(); k2::roots = 0; k2::live_regs = 0;
   for (auto& c : CTL) c = leaf_ctl{};
   for (auto& q : QUEUE) q.clear();
-  cur_ctx = 0;
+  cur_ctx = 0; live_payloads = 0;
   unifex::inplace_stop_source ext;
   if (prestop) ext.request_stop();
   using op_t = unifex::connect_result_t<decltype(mk()), root_receiver>;
@@ -352,7 +421,10 @@ std::string run_case(MakeSender mk, bool prestop, const std::vector<script_ev>& 
   }
   cur_ctx = 0;
   log("|");
-  if (k2::roots > 0) { log("root_dtor"); op->~op_t(); }
+  if (k2::roots > 0) {
+    log("root_dtor"); op->~op_t();
+    log("plive " + std::to_string(live_payloads));   // implementation-only: tracked values still alive (C02: must be 0)
+  }
   std::string out;
   for (auto& l : k2::LOG) { if (!out.empty()) out += ";"; out += l; }
   return out + " # roots=" + std::to_string(k2::roots);
